@@ -135,16 +135,13 @@ def State.enqueue (s : State) (i : Nat) (st : Status) : State :=
 
 /-! ### waiter queue -/
 
-/-- first entry with minimal key = head of the PriorityQueue (stable) -/
-def headIdx : List Waiter → Option Nat
+/-- first entry with minimal key = head of the PriorityQueue (`peek`; ties: earliest arrival) -/
+def headW : List Waiter → Option Waiter
   | [] => none
   | w :: ws =>
-    match headIdx ws with
-    | none => some 0
-    | some j => if (ws[j]?.map (·.key)).any (fun kj => kj < w.key) then some (j + 1) else some 0
-
-def setFutAt (ws : List Waiter) (j : Nat) (f : Fut) : List Waiter :=
-  ws.mapIdx fun n w => if n = j then { w with fut := f } else w
+    match headW ws with
+    | none => some w
+    | some h => if h.key < w.key then some h else some w
 
 def setFutOf (ws : List Waiter) (i : Nat) (f : Fut) : List Waiter :=
   ws.map fun w => if w.task = i then { w with fut := f } else w
@@ -166,14 +163,11 @@ def popOrder (ws : List Waiter) : List Waiter := ws.foldl (fun acc w => insertW 
 def State.wakeUpFirst (s : State) (k : Nat) : State :=
   let l := s.locks k
   if l.waiters.any (·.fut.done) then s else
-  match headIdx l.waiters with
+  match headW l.waiters with
   | none => s
-  | some j =>
-    match l.waiters[j]? with
-    | none => s
-    | some w =>
-      let s1 := s.setLock k { l with waiters := setFutAt l.waiters j .result }
-      if (s1.tasks w.task).status = .blocked then s1.enqueue w.task (.woken false) else s1
+  | some w =>
+    let s1 := s.setLock k { l with waiters := setFutOf l.waiters w.task .result }
+    if (s1.tasks w.task).status = .blocked then s1.enqueue w.task (.woken false) else s1
 
 /-- `_take_lock` -/
 def State.takeLock (s : State) (k i : Nat) : State :=
@@ -237,18 +231,19 @@ def resumeExc (t : Task) : Bool :=
 def State.doResume (s : State) (i : Nat) : State :=
   let t := s.tasks i
   let exc := resumeExc t
-  let s := { s.setTask i { t with status := .running, mustCancel := false, rkey := none }
-             with cur := some i }
   match t.pos with
-  | .top => s
-  | .evt _ => s.setTask i { s.tasks i with pos := .top }
   | .acq k =>
-    -- priority.py:178-183 and the exit of `_waiting_on`
-    let s := if exc then s else s.takeLock k i
+    -- priority.py:178-183 and the exit of `_waiting_on`.  (The model clears `pos`/`waitingOn`
+    -- first; nothing in between reads them.)
+    let s := { s.setTask i { t with status := .running, mustCancel := false, rkey := none,
+                                    pos := .top, waitingOn := none } with cur := some i }
     let l := s.locks k
     let s := s.setLock k { l with waiters := removeTask l.waiters i }
-    let s := if (s.locks k).locked then s else s.wakeUpFirst k
-    s.setTask i { s.tasks i with pos := .top, waitingOn := none }
+    let s := if exc then s else s.takeLock k i
+    if (s.locks k).locked then s else s.wakeUpFirst k
+  | _ =>
+    { s.setTask i { t with status := .running, mustCancel := false, rkey := none, pos := .top }
+      with cur := some i }
 
 def State.doAcquire (s : State) (i k : Nat) : State :=
   let l := s.locks k
